@@ -2100,7 +2100,7 @@ func (e *env) c08() {
 		e.r.Notes = append(e.r.Notes, "search.VerifDigest hook absent: state left behind compared through follow-up searches only")
 	}
 	classRoots := e.classRoots(e.c.Pick(2, 8))
-	multis := e.genMulti()
+	multis := e.genMulti(e.c.Pick(150, 1200), e.c.Pick(60, 500))
 	// quiet phase: the first interleaved cases on this goroutine alone, nothing else is searching
 	nQuiet := e.c.Pick(12, 40)
 	for _, m := range multis[:nQuiet] {
@@ -2137,10 +2137,18 @@ func (e *env) c08() {
 	loadWG.Wait()
 	e.c08twins(classRoots)
 	e.c08sweep(classRoots)
+	t0 := time.Now()
+	lap := func(n string) { fmt.Fprintln(os.Stderr, "TIMING", n, time.Since(t0)); t0 = time.Now() }
 	e.c08lifecycle()
+	lap("lifecycle")
+	e.c08env()
+	lap("env")
 	e.c08uciLifecycle()
+	lap("ucilc")
 	e.c08processes()
+	lap("proc")
 	e.c08ponder()
+	lap("ponder")
 }
 
 // (a) determinism games
@@ -2338,7 +2346,7 @@ func observe2(s *search.Search, g *engine, w io.Writer) obs {
 
 // genMulti draws the multi-engine experiments: node-limited requests (hard, soft, both as datagen
 // does, or depth only), every option variant, fresh and warmed engines, chains of 2 or 3 engines.
-func (e *env) genMulti() []*multi {
+func (e *env) genMulti(nI, nC int) []*multi {
 	rng := e.c.Rng
 	lim := func() limits {
 		l := limits{depth: MaxPlies, nodes: -1}
@@ -2358,7 +2366,6 @@ func (e *env) genMulti() []*multi {
 		}
 		return l
 	}
-	nI, nC := e.c.Pick(150, 1200), e.c.Pick(60, 500)
 	var out []*multi
 	for c := 0; c < nI+nC; c++ {
 		m := &multi{concurrent: c >= nI}
@@ -3037,10 +3044,12 @@ func (e *env) c08sweep(classRoots []*root) {
 const minOutputTT = 1000 * 32 // HashFull needs 1000 buckets: below that only searches without output
 
 type lcOp struct {
-	kind byte // 's' search, 'r' ResizeTT, 'c' Clear
-	size int
-	rt   *root
-	l    limits
+	kind  byte // 's' search, 'n' run of `count` cheap searches cycling over rts, 'r' ResizeTT, 'c' Clear
+	size  int
+	rt    *root
+	l     limits
+	count int
+	rts   []*root
 }
 
 func (o lcOp) String() string {
@@ -3049,8 +3058,25 @@ func (o lcOp) String() string {
 		return fmt.Sprintf("ResizeTT(%d)", o.size)
 	case 'c':
 		return "Clear()"
+	case 'n':
+		var ps []string
+		for _, rt := range o.rts {
+			ps = append(ps, rt.position())
+		}
+		return fmt.Sprintf("%d searches { %s }, cycling over the roots { %s }", o.count, o.l, strings.Join(ps, " | "))
 	}
 	return o.rt.position() + " ; " + o.l.String()
+}
+
+// goCalls is the number of Search.Go calls of the operation.
+func (o lcOp) goCalls() int {
+	switch o.kind {
+	case 's':
+		return 1
+	case 'n':
+		return o.count
+	}
+	return 0
 }
 
 // lifecycle is one script on ONE engine: New(tt0), then searches, resizes and clears in any order.
@@ -3066,12 +3092,18 @@ type lifecycle struct {
 	final     int
 	tag       string
 	regrown   bool // a cleared engine grown again over a region that was cut off (not cleared) while it held content
+	wrap256   bool // a Clear after a positive multiple of 256 Go calls since New / the previous Clear
+	procs     int  // > 0: executed under runtime.GOMAXPROCS(procs)
 	evals     int
 	fails     []common.Mismatch
 }
 
 func (lc *lifecycle) opsList() []string {
-	ops := []string{fmt.Sprintf("engine A: new tt=%d", lc.tt0)}
+	var ops []string
+	if lc.procs > 0 {
+		ops = append(ops, fmt.Sprintf("runtime.GOMAXPROCS(%d)", lc.procs))
+	}
+	ops = append(ops, fmt.Sprintf("engine A: new tt=%d", lc.tt0))
 	for _, o := range lc.ops {
 		ops = append(ops, "engine A: "+o.String())
 	}
@@ -3089,6 +3121,19 @@ func lcApply(s *search.Search, o lcOp) (ob obs, searched bool, pan string) {
 		s.ResizeTT(o.size)
 	case 'c':
 		s.Clear()
+	case 'n':
+		// the observation of the run is the one of its last search (the searches do not touch the boards)
+		bs := make([]*board.Board, len(o.rts))
+		for i, rt := range o.rts {
+			bs[i] = rt.build()
+		}
+		var oc outcome
+		for i := 0; i < o.count; i++ {
+			if oc = run(s, bs[i%len(bs)], o.l, nil); oc.panicked != "" {
+				break
+			}
+		}
+		return observeRun(oc, o.l), true, ""
 	default:
 		return observeRun(run(s, o.rt.build(), o.l, nil), o.l), true, ""
 	}
@@ -3111,9 +3156,7 @@ func (lc *lifecycle) exec() {
 			fail(pan, "", fmt.Sprintf("lifecycle operation #%d (%s) panicked", i, o))
 			return
 		}
-		if searched {
-			lc.evals++
-		}
+		lc.evals += o.goCalls()
 		if b != nil {
 			ob, _, _ := lcApply(b, o)
 			if what := diffObs(oa, ob, false); searched && what != "" {
@@ -3164,7 +3207,7 @@ func (lc *lifecycle) exec() {
 // from one bucket up), mostly >= 1000 buckets so that searches with output are possible; random
 // scripts (every order of search / resize / clear) and directed down-up scripts (fill at a size,
 // shrink, clear, grow back to exactly the old size / between / above the historical maximum).
-func (e *env) genLifecycles(n int) []*lifecycle {
+func (e *env) genLifecycles(n int, big bool) []*lifecycle {
 	rng := e.c.Rng
 	sizes := []int{32000, 32032, 65536, 99968, 262144, 1 << 20, 2 << 20}
 	pickSize := func() int {
@@ -3196,6 +3239,32 @@ func (e *env) genLifecycles(n int) []*lifecycle {
 		}
 		return lcOp{kind: 's', rt: rt, l: l}
 	}
+	// cheapRun: a long run of searches that cost next to nothing (depth 1, or a budget of 1..8 nodes)
+	cheapRun := func(cur, count int) lcOp {
+		o := lcOp{kind: 'n', count: count, l: limits{depth: 1, nodes: -1, noOut: true}}
+		if rng.IntN(4) == 0 {
+			o.l = limits{depth: MaxPlies, nodes: 1 + rng.IntN(8), noOut: true}
+		}
+		o.l.noCnt = rng.IntN(2) == 0
+		if cur >= minOutputTT && rng.IntN(4) == 0 {
+			o.l.noOut = false
+		}
+		for len(o.rts) < 1+count%3 {
+			// non-final roots: every search of the run leaves entries behind
+			if rt := e.roots[rng.IntN(len(e.roots))]; !rt.final {
+				o.rts = append(o.rts, rt)
+			}
+		}
+		return o
+	}
+	// the numbers of Go calls between New / Clear and the next Clear of the long-run scripts: around
+	// every wrap of a byte-wide counter, and a few random ones
+	wraps := []int{254, 255, 256, 257, 258, 510, 511, 512, 513, 514}
+	nLong := 0
+	if !big {
+		nLong = 2*len(wraps) + e.c.Pick(6, 40)
+		n += nLong
+	}
 	var out []*lifecycle
 	for i := 0; i < n; i++ {
 		lc := &lifecycle{tt0: pickSize()}
@@ -3206,7 +3275,85 @@ func (e *env) genLifecycles(n int) []*lifecycle {
 			}
 			lc.ops = append(lc.ops, o)
 		}
-		if i%3 == 0 {
+		if big {
+			// tables of 2 MiB and more (odd bucket counts included), filled by a search of tens of
+			// thousands of nodes so that the last buckets hold entries too, then cleared
+			lc.tag = "big-table"
+			bigSize := func() int {
+				switch rng.IntN(10) {
+				case 0:
+					return 2 << 20
+				case 1:
+					return []int{4 << 20, 8 << 20, 16 << 20}[rng.IntN(3)]
+				case 2:
+					return 4<<20 + 32*rng.IntN(1<<16)
+				}
+				return 2<<20 + 32*rng.IntN(1<<11) // just above the 2 MiB mark: the fill reaches most buckets
+			}
+			lc.tt0 = bigSize()
+			cur = lc.tt0
+			var rich []*root
+			for _, rt := range e.roots {
+				if !rt.final && len(rt.legal) >= 20 {
+					rich = append(rich, rt)
+				}
+			}
+			if len(rich) == 0 {
+				rich = e.roots
+			}
+			for k := 2; k > 0; k-- {
+				o := searchOp(cur, rich[rng.IntN(len(rich))])
+				o.l = optVar{noCnt: o.l.noCnt, noOut: o.l.noOut}.on(limits{depth: MaxPlies, nodes: 45000 + rng.IntN(30000)})
+				add(o)
+			}
+			if rng.IntN(3) == 0 {
+				add(lcOp{kind: 'r', size: 2<<20 + 32*rng.IntN((cur-2<<20)/32+1)}) // smaller, still >= 2 MiB
+			}
+			add(lcOp{kind: 'c'})
+			if rng.IntN(4) == 0 {
+				add(lcOp{kind: 'r', size: bigSize()})
+			}
+			lc.canonical = true
+		} else if i >= n-nLong {
+			lc.tag = "long-run"
+			k := i - (n - nLong)
+			target := 1 + rng.IntN(700)
+			if k < 2*len(wraps) {
+				target = wraps[k%len(wraps)]
+			}
+			if k%4 == 3 {
+				// the counter wraps WITHOUT a Clear: ageing / replacement after 256+ searches, twin engines must agree
+				add(cheapRun(cur, 250+rng.IntN(60)))
+				add(searchOp(cur, nil))
+				if rng.IntN(2) == 0 {
+					add(lcOp{kind: 'r', size: pickSize()})
+				}
+				add(searchOp(cur, nil))
+			} else {
+				left := target
+				if rng.IntN(3) == 0 && left > 300 {
+					// an earlier game of 256 searches, cleared, before the run
+					add(cheapRun(cur, 256))
+					add(lcOp{kind: 'c'})
+				}
+				for j := rng.IntN(3); j > 0 && left > 1; j-- {
+					add(searchOp(cur, nil))
+					left--
+				}
+				if rng.IntN(3) == 0 && left > 10 {
+					first := 1 + rng.IntN(left-1)
+					add(cheapRun(cur, first))
+					add(lcOp{kind: 'r', size: pickSize()})
+					left -= first
+				}
+				add(cheapRun(cur, left))
+				add(lcOp{kind: 'c'})
+				if rng.IntN(3) == 0 {
+					add(lcOp{kind: 'r', size: pickSize()})
+				}
+				lc.canonical = true
+			}
+		} else if i%3 == 0 {
 			// directed: fill, shrink, (search), clear, grow
 			lc.tag = "down-up"
 			for k := 1 + rng.IntN(3); k > 0; k-- {
@@ -3262,10 +3409,20 @@ func (e *env) genLifecycles(n int) []*lifecycle {
 		lc.twin = !lc.canonical || rng.IntN(3) == 0
 		// follow-ups: a root the script searched (its entries are the stale ones, if any), then a random one
 		var searched []*root
+		sinceClear := 0
 		for _, o := range lc.ops {
-			if o.kind == 's' {
+			switch o.kind {
+			case 's':
 				searched = append(searched, o.rt)
+			case 'n':
+				searched = append(searched, o.rts...)
+			case 'c':
+				if sinceClear > 0 && sinceClear%256 == 0 {
+					lc.wrap256 = true
+				}
+				sinceClear = -o.goCalls()
 			}
+			sinceClear += o.goCalls()
 		}
 		if len(searched) > 0 {
 			lc.follow = append(lc.follow, searchOp(cur, searched[rng.IntN(len(searched))]))
@@ -3288,7 +3445,7 @@ func (e *env) genLifecycles(n int) []*lifecycle {
 		c, capMax := lc.tt0, lc.tt0
 		for _, o := range lc.ops {
 			switch o.kind {
-			case 's':
+			case 's', 'n':
 				for j, b := range bs {
 					if b <= c {
 						dirty[j] = true
@@ -3321,8 +3478,12 @@ func (e *env) genLifecycles(n int) []*lifecycle {
 }
 
 func (e *env) c08lifecycle() {
-	lcs := e.genLifecycles(e.c.Pick(240, 2500))
+	lcs := e.genLifecycles(e.c.Pick(240, 2500), false)
 	parallel(len(lcs), func(i int) { lcs[i].exec() })
+	e.reportLifecycles(lcs)
+}
+
+func (e *env) reportLifecycles(lcs []*lifecycle) {
 	for _, lc := range lcs {
 		e.r.Evaluations += lc.evals
 		e.r.Count("lifecycle-scripts", 1)
@@ -3336,6 +3497,12 @@ func (e *env) c08lifecycle() {
 		if lc.regrown {
 			e.r.Count("lifecycle-scripts:cleared-engine-regrown-over-a-region-cut-off-while-it-held-content", 1)
 		}
+		if lc.wrap256 {
+			e.r.Count("lifecycle-scripts:Clear-after-a-multiple-of-256-Go-calls", 1)
+		}
+		if lc.procs > 0 {
+			e.r.Count(fmt.Sprintf("lifecycle-scripts:GOMAXPROCS=%d", lc.procs), 1)
+		}
 		if lc.final < minOutputTT {
 			e.r.Count("lifecycle-scripts:final-size-below-1000-buckets", 1)
 		}
@@ -3347,7 +3514,7 @@ func (e *env) c08lifecycle() {
 			case 'c':
 				nc++
 			default:
-				ns++
+				ns += o.goCalls()
 			}
 		}
 		e.r.Count("lifecycle-ops:ResizeTT", nr)
@@ -3363,7 +3530,7 @@ func (e *env) c08lifecycle() {
 			e.r.Count("FAILED:lifecycle:"+lc.tag, 1)
 		}
 	}
-	if len(lcs) > 0 {
+	if len(lcs) > 0 && lcs[0].procs == 0 {
 		e.r.Sample(map[string]any{"lifecycle": lcs[0].opsList()}, 8)
 	}
 }
@@ -3561,8 +3728,127 @@ func childMain() {
 	w.Flush()
 }
 
-func (e *env) c08processes() {
+// genSession draws one session script: table sizes on both sides of 2 MiB (odd bucket counts
+// included), 2-3 self-play games, optional ResizeTT / Clear between the games.
+func (e *env) genSession() sessScript {
 	rng := e.c.Rng
+	size := func() int {
+		switch rng.IntN(5) {
+		case 0:
+			return 2<<20 + 32*rng.IntN(1<<12)
+		case 1:
+			return []int{2 << 20, 4 << 20, 3 << 20}[rng.IntN(3)]
+		}
+		return ttSizes[rng.IntN(3)]
+	}
+	sc := sessScript{TT: size()}
+	for g := 2 + rng.IntN(2); g > 0; g-- {
+		var rt *root
+		for {
+			if rt = e.roots[rng.IntN(len(e.roots))]; !rt.final {
+				break
+			}
+		}
+		gm := sessGame{Fen: rt.fen, Moves: rt.moves}
+		if len(sc.Games) > 0 {
+			if rng.IntN(3) == 0 {
+				gm.Resize = size()
+			}
+			gm.Clear = rng.IntN(2) == 0
+		}
+		for p := 3 + rng.IntN(4); p > 0; p-- {
+			pl := sessPly{Depth: MaxPlies, Nodes: -1}
+			switch rng.IntN(3) {
+			case 0:
+				pl.Depth = 3 + rng.IntN(3)
+			case 1:
+				pl.Nodes = 1000 + rng.IntN(6000)
+			case 2:
+				pl.Soft = 500 + rng.IntN(3000)
+			}
+			gm.Plies = append(gm.Plies, pl)
+		}
+		// one heavier search per game so that a big table gets entries everywhere
+		gm.Plies[rng.IntN(len(gm.Plies))] = sessPly{Depth: MaxPlies, Nodes: 20000 + rng.IntN(30000)}
+		sc.Games = append(sc.Games, gm)
+	}
+	return sc
+}
+
+// procValues are the runtime.GOMAXPROCS values (GOMAXPROCS environment values of the child
+// processes) the experiments are repeated under: the CPU count must not matter.
+var procValues = []int{1, 2, 3, 5, 6, 7, 12}
+
+// c08env repeats lifecycle, concurrency and session experiments under several GOMAXPROCS values
+// (the runtime environment is an input the property says must not matter): big-table lifecycle
+// scripts against search.New(S), concurrent engines against their solo runs, and a session whose
+// transcript must equal the one obtained under the default setting.
+func (e *env) c08env() {
+	vals := append([]int{runtime.GOMAXPROCS(0)}, procValues...)
+	perVal := e.c.Pick(3, 10)
+	lcs := e.genLifecycles(perVal*len(vals), true)
+	ms := e.genMulti(0, 2*len(vals))
+	scripts := []sessScript{e.genSession(), e.genSession()}
+	var ref [][]string
+	for i := range scripts {
+		ref = append(ref, runSession(&scripts[i]))
+	}
+	prev := runtime.GOMAXPROCS(0)
+	defer runtime.GOMAXPROCS(prev)
+	for vi, v := range vals {
+		runtime.GOMAXPROCS(v)
+		batch := lcs[vi*perVal : (vi+1)*perVal]
+		for _, lc := range batch {
+			lc.procs = v
+		}
+		mb := ms[2*vi : 2*vi+2]
+		got := make([][]string, len(scripts))
+		parallel(len(batch)+len(mb)+len(scripts), func(i int) {
+			switch {
+			case i < len(batch):
+				batch[i].exec()
+			case i < len(batch)+len(mb):
+				mb[i-len(batch)].exec()
+			default:
+				k := i - len(batch) - len(mb)
+				got[k] = runSession(&scripts[k])
+			}
+		})
+		for _, m := range mb {
+			for fi := range m.fails {
+				m.fails[fi].Ops = append([]string{fmt.Sprintf("runtime.GOMAXPROCS(%d)", v)}, m.fails[fi].Ops...)
+			}
+		}
+		for k := range scripts {
+			e.r.Count("sessions-under-GOMAXPROCS", 1)
+			e.r.Evaluations += len(got[k])
+			if a, b := strings.Join(ref[k], "\n"), strings.Join(got[k], "\n"); a != b {
+				x, y := "", ""
+				for i := 0; i < len(ref[k]) || i < len(got[k]); i++ {
+					x, y = "<end>", "<end>"
+					if i < len(ref[k]) {
+						x = ref[k][i]
+					}
+					if i < len(got[k]) {
+						y = got[k][i]
+					}
+					if x != y {
+						break
+					}
+				}
+				e.r.Fail(common.Mismatch{Property: "C08", Kind: "failing-input",
+					Ops:  append(scripts[k].ops(), fmt.Sprintf("the same session under runtime.GOMAXPROCS(%d) and under runtime.GOMAXPROCS(%d); first differing transcript line", prev, v)),
+					Impl: y, Spec: x, Note: "the results of a session depend on the number of CPUs the runtime may use"})
+				e.r.Count("FAILED:session-under-GOMAXPROCS", 1)
+			}
+		}
+	}
+	runtime.GOMAXPROCS(prev)
+	e.reportLifecycles(lcs)
+	e.reportMulti(ms)
+}
+
+func (e *env) c08processes() {
 	exe, err := os.Executable()
 	if err != nil {
 		panic("search harness: cannot find its own executable: " + err.Error())
@@ -3576,36 +3862,7 @@ func (e *env) c08processes() {
 	}
 	var js []*pj
 	for i := e.c.Pick(4, 16); i > 0; i-- {
-		j := &pj{sc: sessScript{TT: ttSizes[rng.IntN(3)]}}
-		for g := 2 + rng.IntN(2); g > 0; g-- {
-			var rt *root
-			for {
-				if rt = e.roots[rng.IntN(len(e.roots))]; !rt.final {
-					break
-				}
-			}
-			gm := sessGame{Fen: rt.fen, Moves: rt.moves}
-			if len(j.sc.Games) > 0 {
-				if rng.IntN(3) == 0 {
-					gm.Resize = ttSizes[rng.IntN(3)]
-				}
-				gm.Clear = rng.IntN(2) == 0
-			}
-			for p := 3 + rng.IntN(4); p > 0; p-- {
-				pl := sessPly{Depth: MaxPlies, Nodes: -1}
-				switch rng.IntN(3) {
-				case 0:
-					pl.Depth = 3 + rng.IntN(3)
-				case 1:
-					pl.Nodes = 1000 + rng.IntN(6000)
-				case 2:
-					pl.Soft = 500 + rng.IntN(3000)
-				}
-				gm.Plies = append(gm.Plies, pl)
-			}
-			j.sc.Games = append(j.sc.Games, gm)
-		}
-		js = append(js, j)
+		js = append(js, &pj{sc: e.genSession()})
 	}
 	parallel(len(js)*(procs+1), func(i int) {
 		j, k := js[i/(procs+1)], i%(procs+1)
@@ -3615,6 +3872,8 @@ func (e *env) c08processes() {
 		}
 		in, _ := json.Marshal(&j.sc)
 		cmd := exec.Command(exe, "-child-session")
+		// every child under another CPU count (the parent runs the session under the default)
+		cmd.Env = append(os.Environ(), fmt.Sprintf("GOMAXPROCS=%d", procValues[i%len(procValues)]))
 		cmd.Stdin = bytes.NewReader(in)
 		cmd.Stderr = os.Stderr
 		out, err := cmd.Output()
@@ -3653,7 +3912,7 @@ func (e *env) c08processes() {
 		switch {
 		case j.child[0] != j.child[1]:
 			x, y := firstDiff(j.child[0], j.child[1])
-			e.r.Fail(common.Mismatch{Property: "C08", Kind: "failing-input", Ops: append(j.sc.ops(), "the same session in two separate processes; first differing transcript line"),
+			e.r.Fail(common.Mismatch{Property: "C08", Kind: "failing-input", Ops: append(j.sc.ops(), "the same session in two separate processes (started with different GOMAXPROCS values); first differing transcript line"),
 				Impl: y, Spec: x, Note: "two engine PROCESSES in the same state given the same requests report different results"})
 			e.r.Count("FAILED:process-sessions", 1)
 		case j.child[0] != local:
